@@ -6,6 +6,11 @@
 //   vertex <i> <j> <k> <l> <nf> {n1 n2 n3}
 //        -> "VX i j k l chi_vanishing {n1 n2 n3  chi  g13(n1) g24(n2) g14(n1) g23(n2)  value}" (complex numbers as hex re im)
 //           value = Vertex4::value(n1,n2,n3) of the real class built from the same objects
+//   checkterms <i> <j> <k> <l>
+//        -> "CT i j k l nparts  nonresonant_lists_failing resonant_lists_failing  stored_negligible order_violations  coeff threshold size":
+//           TermList::check_terms() (the condition asserted at the end of TwoParticleGFPart::compute, compiled out with NDEBUG) on
+//           every computed part; which of its two conditions fails (a stored term negligible w.r.t. the final list size / the
+//           order), and the smallest such coefficient with its threshold 1e-16/(size+1)
 // All floating-point output is hex floats.
 #include "ed_common.h"
 using namespace Pomerol;
